@@ -17,6 +17,8 @@ def prebuild():
     _harness()
     vf.build_preload()
     vf.build_flavour("tsan", ["csg_stat", "csg_reupdate", "orientcorr", "partial_rdf"])
+    for fl in ("asan", "tsan"):
+        vf.build_harness(fl, "template_threaded", sources=[TEMPLATE_SRC])
 
 
 def run(chk):
@@ -89,6 +91,8 @@ def run_executables(chk, work):
     pre = vf.build_preload()
     vf.build_flavour("asan", ["csg_stat", "csg_reupdate", "orientcorr", "partial_rdf"])
     vf.build_flavour("tsan", ["csg_stat", "csg_reupdate", "orientcorr", "partial_rdf"])
+    for fl in ("asan", "tsan"):
+        vf.build_harness(fl, "template_threaded", sources=[TEMPLATE_SRC])
     rng = random.Random(chk.seed * 7919 + 13)
     ncases = vf.tier_n(chk.tier, 24, 160)
     cases = []
@@ -96,7 +100,7 @@ def run_executables(chk, work):
         d = os.path.join(work, "exe%d" % i)
         gen = [gen_stat_case, gen_reupdate_case, gen_stat_bonded_case,
                gen_reupdate_case, gen_orientcorr_case,
-               gen_partial_rdf_case, gen_stat_h5md_case, gen_reupdate_case][i % 8]
+               gen_partial_rdf_case, gen_stat_h5md_case, gen_template_case][i % 8]
         cases.append((d, gen(rng, d)))
     # reference runs (nt 1, asan)
     refs = vf.run_parallel([lambda d=d, c=c: run_exe(
@@ -318,6 +322,8 @@ def gen_reupdate_case(rng, d):
 
 
 def exe_path(fl, kind):
+    if kind == "template_threaded_rdf":
+        return os.path.join(vf.flavour_dir(fl), "harness", "template_threaded", "template_threaded")
     if kind in ("csg_orientcorr", "csg_partial_rdf"):
         sub = kind[4:]
         return os.path.join(vf.flavour_dir(fl), "csg", "src", "csgapps", sub, kind)
@@ -373,6 +379,9 @@ def gen_stat_bonded_case(rng, d):
 _H5MD_COUNT = [0]
 
 
+TEMPLATE_SRC = os.path.join(vf.REPO, "csg", "share", "template", "template_threaded.cc")
+
+
 def h5md_tool():
     return vf.build_tool("gen_h5md", os.path.join(H, "tools", "gen_h5md.c"),
                          "-I/usr/include/hdf5/serial -L/usr/lib/x86_64-linux-gnu/hdf5/serial -lhdf5_serial")
@@ -403,6 +412,20 @@ def gen_stat_h5md_case(rng, d):
     steps = list(range(nfr))
     return {"kind": "csg_stat", "frames": nfr, "steps": steps, "opts": opts, "imc": False,
             "block": None, "selected": steps, "ordered": True, "no_step": True, "h5md": mode}
+
+
+def gen_template_case(rng, d):
+    """the shipped threaded application template (csg/share/template/
+    template_threaded.cc, ordered mode, an rdf-like histogram in rdf.dat)
+    compiled as it is against the freshly built libraries"""
+    case = gen_stat_case(rng, d)
+    opts = ["--top", "../topol.xml", "--trj", "../traj.dump", "--c", rng.choice(["0.7", "1.0", "1.3"])]
+    for o in ("--first-frame", "--nframes"):
+        if o in case["opts"]:
+            opts += [o, case["opts"][case["opts"].index(o) + 1]]
+    case.update({"kind": "template_threaded_rdf", "opts": opts, "ordered": True,
+                 "imc": False, "block": None})
+    return case
 
 
 def gen_orientcorr_case(rng, d):
